@@ -235,12 +235,20 @@ func (s *Syncer[H]) findTailHeight(ctx context.Context, oldTail, head H) (uint64
 		// current and expected tails are far from each other
 		// estimate with head for higher accuracy
 		headersToStore := uint64(window / s.Params.blockTime) //nolint:gosec
-		estimatedTailHeight = head.Height() - headersToStore
+		if headersToStore < head.Height() {
+			// otherwise the chain is shorter than the window's worth of blocks
+			estimatedTailHeight = head.Height() - headersToStore
+		}
 	case tailTimeDiff < window:
 		// tails are close
 		// estimate with tail for higher accuracy
 		headersToStore := uint64(tailTimeDiff / s.Params.blockTime) //nolint:gosec
 		estimatedTailHeight = oldTail.Height() + headersToStore
+	}
+
+	if estimatedTailHeight < oldTail.Height() {
+		// estimation never moves the tail down
+		estimatedTailHeight = oldTail.Height()
 	}
 
 	log.Debugw(
